@@ -12,6 +12,11 @@ TEXT = {
         "note": _NOTE + "encoding/json's lexer is the byte-level mapping on both sides; two known findings (integer text, nested placeholders).",
         "technique": "Coq proof over a token-level Gallina model of the JSON codec + model-side round-trip evaluation and correspondence by vm_compute",
     },
+    "C16": {
+        "level": "cty/msgpack Marshal and Unmarshal are modelled at the MessagePack item-tree level, including number encoding selection (int64 / float64 / decimal text), the unknown-value extension with its refinement map (replayed through the modelled refinement builder of C05) and the dynamic wrapper. Theorems: marked values (top-level or members) are rejected, the integer encoding is chosen only for that very integer and decodes to it, infinities round-trip, unknowns of unknown type carry nothing, the refinement replay never panics. Every generated value x constraint is encoded and decoded by the implementation, compared item tree by item tree and value by value with the model, and the round-trip relation (same type, known parts numerically equal, decoded ranges at least as wide) is evaluated by the oracle.",
+        "note": _NOTE + "byte-level MessagePack framing is parsed by the harness; one known finding (nested placeholders); one fix: commit (exact number text).",
+        "technique": "Coq proof over an item-tree Gallina model of the MessagePack codec + correspondence by vm_compute + implementation-side never-narrower oracle",
+    },
     "C18": {
         "level": "Number decoding into every Go numeric type (per-width range checks, unsigned wholeness, float64 and float32 narrowing with subnormals and overflow, big.Int/big.Float) and re-encoding are modelled in Gallina on the bit-exact big.Float model. Theorems: an exact integer conversion yields that very number (all numbers), signed decoding succeeds only for whole in-range numbers and stores that number, every Go integer of every width round-trips. All boundary numbers x 14 targets are compared with the implementation; a reflect-based Go type family is round-tripped by the oracle.",
         "note": _NOTE + "structs / slices / maps / pointers: oracle only (partial).",
